@@ -21,7 +21,8 @@ FILES = [ASM, MOD, VEC, "moclo/moclo/regex.py", REC]
 FUNCTIONS = [(MOD, "AbstractModule.target_sequence"), (VEC, "AbstractVector.target_sequence"),
              (ASM, "AssemblyManager._generate_assembly"), (ASM, "AssemblyManager.assemble"),
              (REC, "CircularRecord.__lshift__"), (REC, "CircularRecord.__rshift__"), (REC, "CircularRecord.__getitem__"),
-             (REC, "CircularRecord.__init__"), (VEC, "AbstractVector.assemble")]
+             (REC, "CircularRecord.__init__"), (VEC, "AbstractVector.assemble"),
+             (MOD, "AbstractModule.structure"), (VEC, "AbstractVector.structure")]
 ASSUMES = ["D-RE", "D-RESTR", "D-SEQ", "D-REC-SLICE", "D-REC-ADD", "D-CACHE",
            "RE5 (shape semantics): a pattern site.N^a(N^k)(N N* N)(N^k)N^a.rc(site) matches at a start exactly when the site is "
            "there and some later position carries rc(site) at the right distance; its groups are the fixed-width windows after "
